@@ -27,5 +27,34 @@ func C16_Nomenclature() {
 	if env {
 		want += "E"
 	}
-	verif.Assert(c.Nomenclature() == want, "Nomenclature names exactly the metric groups in use")
+	n := c.Nomenclature()
+	verif.Assert(n == want, "Nomenclature names exactly the metric groups in use")
+	// the same statement, clause by clause
+	verif.Assert(n == "CVSS-B" || n == "CVSS-BT" || n == "CVSS-BE" || n == "CVSS-BTE", "Nomenclature is one of the four specified names")
+	verif.Assert((n == "CVSS-BT" || n == "CVSS-BTE") == (e != "X"), "T is named exactly when the threat metric E is defined")
+	verif.Assert((n == "CVSS-BE" || n == "CVSS-BTE") == env, "E is named exactly when an environmental metric is defined")
+}
+
+// C16_OnlyThreatAndEnvironmental: base and supplemental metrics never affect
+// the nomenclature: two reachable objects that agree on E and on every
+// environmental metric have the same nomenclature (2-safety, one query).
+func C16_OnlyThreatAndEnvironmental() {
+	var c, d CVSS
+	verif.Havoc("c", &c)
+	verif.Assume(inv(c))
+	verif.Havoc("d", &d)
+	verif.Assume(inv(d))
+	ce, _ := c.Get("E")
+	de, _ := d.Get("E")
+	same := ce == de
+	for _, m := range envMetrics {
+		cv, _ := c.Get(m)
+		dv, _ := d.Get(m)
+		if cv != dv {
+			same = false
+		}
+	}
+	if same {
+		verif.Assert(c.Nomenclature() == d.Nomenclature(), "objects that agree on E and the environmental metrics have the same nomenclature")
+	}
 }
